@@ -149,6 +149,11 @@ def exec (L : Limits) (P : Prog) : Nat → Det → Nat → Except Err (Det × Na
 
 /-! ## 2. `execution_allowed`: the statement-level re-entrancy guard alone -/
 
+/-- the guard's stack is restored by `finally: pushed_nodes.pop()`: a child leaves it unchanged -/
+def guardChild (st : List Nat) : Except Err (List Nat × Nat) → Except Err (List Nat × Nat)
+  | .error e => .error e
+  | .ok (_, w) => .ok (st, w)
+
 /-- evaluation of a dependency graph guarded only by "is this node already on the stack":
 `if node in pushed_nodes: yield False else: push; body; pop`. Returns the number of bodies
 entered. -/
@@ -159,10 +164,7 @@ def evalGuard (deps : Nat → List Nat) : Nat → List Nat → Nat → Except Er
       match fuel with
       | 0 => .error .fuel
       | fuel' + 1 =>
-        match seqList (fun st c =>
-            match evalGuard deps fuel' (v :: stack) c with
-            | .error e => .error e
-            | .ok (_, w) => .ok (st, w)) stack (deps v) with
+        match seqList (fun st c => guardChild st (evalGuard deps fuel' (v :: stack) c)) stack (deps v) with
         | .error e => .error e
         | .ok (_, w) => .ok (stack, w + 1)
 
